@@ -161,21 +161,28 @@ def dueOpt (t : Nat) (incl : Bool) : Option Nat → Bool
   | some d => due t incl d
   | none => false
 
+/-- At equal deadlines the (silent) reset firing is taken first: had the context task fired first its
+callbacks would have been observed. -/
+def resetFirst (s : St) (r : Nat) : Bool :=
+  match s.ctxAt with
+  | some x => decide (r ≤ x)
+  | none => true
+
+/-- A reset firing without observable output that is due is applied. -/
+def advance1 (c : Cfg) (s : St) (t : Nat) (incl : Bool) : Option St :=
+  match s.resetAt with
+  | some r =>
+    if due t incl r && resetFirst s r then
+      (if (fireReset c s r).2.isEmpty then some (fireReset c s r).1 else none)
+    else some s
+  | none => some s
+
 /-- Let time pass up to `t` (`incl`: timers due at exactly `t` must have fired as well).
 A reset firing without observable output is applied; any other armed timer that is due means
 an output was missed → reject. -/
 def advance (c : Cfg) (s : St) (t : Nat) (incl : Bool) : Option St :=
-  let s1? : Option St :=
-    match s.resetAt with
-    | some r =>
-      if due t incl r && (match s.ctxAt with | some x => decide (r ≤ x) | none => true) then
-        let (s', outs) := fireReset c s r
-        if outs.isEmpty then some s' else none
-      else some s
-    | none => some s
-  match s1? with
-  | none => none
-  | some s1 => if dueOpt t incl s1.resetAt || dueOpt t incl s1.ctxAt then none else some s1
+  (advance1 c s t incl).bind fun s1 =>
+    if dueOpt t incl s1.resetAt || dueOpt t incl s1.ctxAt then none else some s1
 
 /-- An input reaction: outputs become expectations. -/
 def react (t : Nat) (r : St × List Out) : St :=
@@ -196,6 +203,21 @@ def fireAt (c : Cfg) (s : St) (o : Out) (t : Nat) : Option St :=
       if outs.contains o then some { s' with now := t, expect := outs.erase o, log := o :: s'.log } else none
     else none
 
+/-- The atomic reaction of the device to an input at its time stamp (`none`: not an input, or an
+API call on a device that has none). -/
+def inputReaction (c : Cfg) (s : St) : Obs → Option (St × List Out)
+  | .tw v t => some (if c.switch then switchProcess c s v t else sensorWrite c s v t)
+  | .tr v t => some (if c.switch then switchProcess c s v t else sensorResponse c s v t)
+  | .api v t =>
+    if c.switch then some ((switchProcess c s v t).1, .bw v t :: (switchProcess c s v t).2) else none
+  | _ => none
+
+/-- Samples and the end marker: taken at quiescent instants; a sample must agree with the model. -/
+def sampleOk (c : Cfg) (s : St) : Obs → Option Bool
+  | .q st n _ => some (s.st == st && counter c s == n)
+  | .fin _ => some true
+  | _ => none
+
 def step? (c : Cfg) (s : St) (o : Obs) : Option St :=
   if o.time < s.now then none else
   match o with
@@ -205,26 +227,12 @@ def step? (c : Cfg) (s : St) (o : Obs) : Option St :=
     else if x.time == s.now && s.expect.contains x then
       some { s with expect := s.expect.erase x, log := x :: s.log }
     else none
-  | .tw v t =>
+  | o =>
     if !s.expect.isEmpty then none else
-    (advance c s t true).bind fun s1 =>
-      some (react t (if c.switch then switchProcess c s1 v t else sensorWrite c s1 v t))
-  | .tr v t =>
-    if !s.expect.isEmpty then none else
-    (advance c s t true).bind fun s1 =>
-      some (react t (if c.switch then switchProcess c s1 v t else sensorResponse c s1 v t))
-  | .api v t =>
-    if !s.expect.isEmpty || !c.switch then none else
-    (advance c s t true).bind fun s1 =>
-      let (s2, outs) := switchProcess c s1 v t
-      some (react t (s2, .bw v t :: outs))
-  | .q st n t =>
-    if !s.expect.isEmpty then none else
-    (advance c s t true).bind fun s1 =>
-      if s1.st == st && counter c s1 == n then some { s1 with now := t } else none
-  | .fin t =>
-    if !s.expect.isEmpty then none else
-    (advance c s t true).bind fun s1 => some { s1 with now := t }
+    (advance c s o.time true).bind fun s1 =>
+      match sampleOk c s1 o with
+      | some ok => if ok then some { s1 with now := o.time } else none
+      | none => (inputReaction c s1 o).map (react o.time)
 
 def accepts (c : Cfg) (tr : List Obs) : Bool := (TraceRun.run? (step? c) init tr).isSome
 
@@ -238,6 +246,30 @@ def burstCount (ctx : Nat) (v : Bool) : List (Nat × Bool) → Nat
   | [(_, b)] => if b == v then 1 else 0
   | (t, b) :: (t', b') :: rest =>
     (if b == v then 1 else 0) + (if t - t' < ctx then burstCount ctx v ((t', b') :: rest) else 0)
+
+/-! ### Vocabulary of the property statements (functions of the observed trace) -/
+
+/-- Time stamp of an 'on' telegram / `set_on()` call. -/
+def onInputTime : Obs → Option Nat
+  | .tw true t | .tr true t | .api true t => some t
+  | _ => none
+
+/-- An 'off' telegram / `set_off()` call. -/
+def isOffInput : Obs → Bool
+  | .tw false _ | .tr false _ | .api false _ => true
+  | _ => false
+
+/-- Time of the last 'on' telegram in the trace. -/
+def lastOnTime (tr : List Obs) : Option Nat :=
+  tr.foldl (fun acc o => match onInputTime o with | some t => some t | none => acc) none
+
+/-- The outputs observed in the trace, in order. -/
+def outsOf (tr : List Obs) : List Out :=
+  tr.filterMap fun o => match o with | .out x => some x | _ => none
+
+/-- The GroupValueWrite telegrams of the trace as (time, state), most recent first. -/
+def writesOf (tr : List Obs) : List (Nat × Bool) :=
+  (tr.filterMap fun o => match o with | .tw v t => some (t, v) | _ => none).reverse
 
 /-! ### Line protocol -/
 
